@@ -83,7 +83,7 @@ CLAIMED['C13'] = (
     'is additionally decided in IEEE-754 double mode (z3 Float64) for every finite x and positive period: result in '
     '[0, period). All samplers are executed for sample counts <=3 (quick) / <=4 (thorough) per axis with symbolic ranges: '
     'entry [i,j,k] is the function at (x_i,y_j,z_k) on the evenly spaced grid including both end points.',
-    'fmod in double mode by its C99 contract; sqrt/atan2 by defining equations; numpy.linspace modelled; PolygonMask2D not '
+    'fmod in double mode by its C99 contract; sqrt/atan2 by defining equations; numpy.linspace modelled; PolygonMask2D on convex n-gons and quadrilaterals with one symbolic (possibly reflex) vertex, triangulate2d / Discrete2DMesh by contract; larger non-convex polygons not '
     'claimed (pure delegation to raysect triangulation).',
     'DESIGN.md §3 / Appendix A C13', TECH + '; z3 Float64 for the periodic kernel')
 CLAIMED['C18'] = (
@@ -167,7 +167,7 @@ CLAIMED['C10'] = (
     'for symbolic cell sizes and inner radius the cell index satisfies i d <= coordinate < (i+1) d, emission adds 1 to the '
     'mapped source, and the cylindrical grid repeats with the angular period. Mask / voxel-map bookkeeping: exhaustive '
     'enumeration on a 2x1x2 grid (numpy boolean indexing cannot be symbolic; labelled as enumeration).',
-    'raysect geometry (start/end points), the two-step chord-length error bound and floating-point rounding of the index '
+    'raysect geometry (start/end points), the two-step chord-length error bound on cylindrical grids (decided for Cartesian grids by chord_per_cell) and floating-point rounding of the index '
     'computation are outside the claim; atan2 and sqrt are havocked / harness-supplied in the accumulation harness.',
     'DESIGN.md §3 / Appendix A C10', TECH)
 CLAIMED['C03'] = (
